@@ -2411,6 +2411,21 @@ fn usefulness(patterns: Vec<PatternStack>, q: PatternStack, defs: &Defs) -> Vec<
         vec![q]
     } else if patterns[0].is_empty() || q.is_empty() {
         vec![]
+    } else if matches!(q[0].0, PatternEnum::Identifier(_))
+        && patterns
+            .iter()
+            .all(|p| matches!(p[0].0, PatternEnum::Identifier(_)))
+    {
+        // No row looks at this column: all of its values behave the same, so its constructors
+        // need not be enumerated (n such columns would otherwise cost 2^n recursive calls).
+        let Pattern(_, meta, ty) = q[0].clone();
+        let rest = patterns.into_iter().map(|p| p[1..].to_vec()).collect();
+        let mut witnesses = usefulness(rest, q[1..].to_vec(), defs);
+        for witness in witnesses.iter_mut() {
+            let wildcard = PatternEnum::Identifier("_".to_string());
+            witness.insert(0, Pattern::typed(wildcard, ty.clone(), meta));
+        }
+        witnesses
     } else {
         let mut witnesses = vec![];
         let meta = MetaInfo {
